@@ -305,6 +305,13 @@ struct StreamWorld : IWorld
       out << c;
     } else if (t == "vi") out << ints(v);
     else if (t == "vs" || t == "vbs") out << strs(v);
+    else if (t == "vcs") {
+      // std::vector<const char*>: every element through operator<<(WriteStream&, const char*) (seeded/C15-07)
+      const std::vector<std::string> s = strs(v);
+      std::vector<const char *> p;
+      for (const auto &x : s) p.push_back(x.c_str());
+      out << p;
+    }
     else if (t == "vvbs") {
       std::vector<std::vector<std::string>> x;
       for (size_t i = 0; i < v.size(); ++i) x.push_back(strs(v[i]));
@@ -462,7 +469,7 @@ struct StreamWorld : IWorld
     else if (t == "vvbs") sVvs.reset();
     else if (t == "vi" || (vec && t != "FixedArrayView<uint8_t>")) sVi.reset();
     else if (vec) sVb.reset();
-    else if (t == "vs") sVs.reset();
+    else if (t == "vs" || t == "vcs") sVs.reset();
     else if (t == "vvi") sVvi.reset();
   }
 
@@ -600,7 +607,7 @@ struct StreamWorld : IWorld
       return a;
     }
     if (t == "vi") { std::vector<int> &x = dest(sVi, arg); r >> x; return arr(x); }
-    if (t == "vs") {
+    if (t == "vs" || t == "vcs") {
       std::vector<std::string> &x = dest(sVs, arg); r >> x;
       Json a = Json::array();
       for (auto &e : x) a.push(Json(e));
